@@ -13,6 +13,8 @@ from . import core
 from .num import Sym, lift, liftable, _real, DomainError
 
 
+SQRT_POSITIVE = [False]     # harness option: radicands are positive in the stated domain
+SQRT_OF = {}          # name of a root variable -> its radicand (for harness oracles)
 DIV_MODE = ["branch"]
 ASSUMED = [0]
 
@@ -285,7 +287,20 @@ class Q:
         r = self._exact_sqrt()
         if r is not None:
             return r
-        return Q(self.sym().sqrt().t)
+        if DIV_MODE[0] != "assume" and core.branch((self < 0).t):
+            raise DomainError("sqrt of a negative number")
+        # (in "assume" mode the equation v^2 == radicand below restricts the path to the domain)
+        key = (self.c, tuple(sorted(f.sexpr() for f in self.nf)), tuple(sorted(f.sexpr() for f in self.df)))
+        cache = core._P.__dict__.setdefault("sqrt_cache", {})
+        if key in cache:
+            return cache[key]              # the same radicand has the same root
+        v = core.fresh_real("sqrt")
+        r = Q(v)
+        d = r * r - self                       # v^2 == self as a polynomial equation
+        core.assume_fact(z3.And(v > 0 if SQRT_POSITIVE[0] else v >= 0, d.n == 0))
+        SQRT_OF[str(v)] = self
+        cache[key] = r
+        return r
 
     def _exact_sqrt(self):
         """sqrt of a structurally perfect square (every factor an even number of times)."""
@@ -323,6 +338,22 @@ class Q:
         if not self.df:
             return Sym(self.n)
         return Sym(self.n / self.d)
+
+
+def square(q):
+    """q * q with every square-root variable resolved: (sqrt(R))^2 is written as R.  The result is
+    free of root variables whenever q contains each of them at most to the first power."""
+    q = Q.of(q)
+    out = Q(c=q.c * q.c, nf=[], df=[])
+    for fs, inv in ((q.nf, False), (q.df, True)):
+        for f in fs:
+            name = str(f) if z3.is_const(f) else None
+            if name in SQRT_OF:
+                term = SQRT_OF[name]
+            else:
+                term = Q(f) * Q(f)
+            out = out / term if inv else out * term
+    return out
 
 
 def qarray(a):
@@ -382,9 +413,52 @@ def adj_inv(a, *args, **kw):
     return out
 
 
+def _free_consts(t):
+    out = {}
+    seen = set()
+    stack = [t]
+    while stack:
+        e = stack.pop()
+        i = e.get_id()
+        if i in seen:
+            continue
+        seen.add(i)
+        if z3.is_const(e) and e.decl().kind() == z3.Z3_OP_UNINTERPRETED:
+            out[e.decl().name()] = e
+        else:
+            stack.extend(e.children())
+    return out
+
+
+def _nonzero_somewhere(t, tries=3):
+    """evaluate the polynomial at a few rational points; True if one value is non-zero"""
+    import random
+    cs = _free_consts(t)
+    if not cs:
+        return False
+    rnd = random.Random(len(cs) * 7919 + 13)
+    for _ in range(tries):
+        sub = [(c, z3.RealVal("%d/%d" % (rnd.choice([-7, -5, -3, -2, 2, 3, 5, 7, 11]), rnd.choice([2, 3, 5, 7]))))
+               for c in cs.values() if z3.is_real(c)]
+        sub += [(c, z3.IntVal(rnd.choice([2, 3, 5, 7]))) for c in cs.values() if z3.is_int(c)]
+        v = z3.simplify(z3.substitute(t, *sub))
+        if z3.is_rational_value(v) or z3.is_int_value(v):
+            if v.numerator_as_long() != 0 if z3.is_rational_value(v) else v.as_long() != 0:
+                return True
+    return False
+
+
 def poly_eq(a, b):
-    """Sym(Bool): a == b as a polynomial identity (sum-of-monomials normal form first)."""
-    d = Q.of(a) - Q.of(b)
+    """Sym(Bool): a == b as rational functions.  A residual that is non-zero at a sample point is not
+    an identity: it is handed to the solver unexpanded (which then finds a model by ground sampling);
+    otherwise the residual is brought to sum-of-monomials normal form, which is 0 for an identity."""
+    a, b = Q.of(a), Q.of(b)
+    if a.c == 0 and b.c == 0:
+        return Sym(z3.BoolVal(True))
+    raw = a.n * b.d - b.n * a.d
+    if _nonzero_somewhere(raw):
+        return Sym(raw == 0)
+    d = a - b
     if d.c == 0:
         return Sym(z3.BoolVal(True))
     t = d.n
